@@ -51,6 +51,8 @@ pub struct ScriptBody {
     /// report `is_end_stream() == true` once the script is exhausted (hyper does this for
     /// bodies whose END_STREAM flag has been seen)
     pub eager_end: bool,
+    /// an un-fused body: keeps delivering the scripted steps that follow an Err step
+    pub continue_after_err: bool,
     remaining: usize,
 }
 
@@ -63,6 +65,7 @@ impl ScriptBody {
                 steps: steps.into_iter(),
                 stats: stats.clone(),
                 eager_end: false,
+                continue_after_err: false,
                 remaining,
             },
             stats,
@@ -113,7 +116,9 @@ impl Body for ScriptBody {
                     BStep::Trailers(t) => Poll::Ready(Some(Ok(Frame::trailers(t)))),
                     BStep::Err(code, msg) => {
                         // an errored body is finished: further polls count as after-end
-                        self.stats.ended.store(true, Ordering::SeqCst);
+                        if !self.continue_after_err {
+                            self.stats.ended.store(true, Ordering::SeqCst);
+                        }
                         Poll::Ready(Some(Err(Status::new(code, msg))))
                     }
                 }
